@@ -21,7 +21,9 @@ def plan(which, rng, thorough=True):
         # quick tier: one short pass over the real kernel (about 3 s): stream under a signal storm, datagrams one at a time
         # and queued (two senders, empty datagrams, NULL address result, pending socket error = POLLERR alone), vanished peer
         runs += [["tcp", str(rng.randrange(1, 10**6)), "4", "150000", "1", "0"], ["tcp", str(rng.randrange(1, 10**6)), "4", "150000", "0", "3"],
-                 ["udp", str(rng.randrange(1, 10**6)), "4", "1"], ["udpq", str(rng.randrange(1, 10**6)), "4"], ["gone", "4"]]
+                 ["udp", str(rng.randrange(1, 10**6)), "4", "1"], ["udpq", str(rng.randrange(1, 10**6)), "4"], ["gone", "4"],
+                 # a datagram that arrives at 0.8 T of a timed blocking receive under a stream of handled signals must be delivered
+                 ["sigdata", "4", "500"]]
     elif which == "C09":
         for fam in (4, 6):
             runs.append(["udpq", str(rng.randrange(1, 10**6)), str(fam)])
